@@ -4,7 +4,7 @@
 From Coq Require Import ZArith List String Ascii Bool Lia.
 From Model Require Import PyBase Mdl Mrv Stereo.
 From Gen Require Import MdlTables.
-From Proofs Require Import MdlProofs MdlV2000 MdlV3000 MdlTail MdlFraming MdlFramingExt MdlMeta MdlFile MdlFileMol MdlFileMol3 MdlRxn MdlFileRxn MdlFileRxn3 MrvProofs StereoProofs.
+From Proofs Require Import MdlProofs MdlV2000 MdlV3000 MdlTail MdlFraming MdlFramingExt MdlMeta MdlFile MdlFileMol MdlFileMol3 MdlRxn MdlFileRxn MdlFileRxn3 MdlSessions MrvProofs StereoProofs.
 Import ListNotations.
 Open Scope Z_scope.
 Local Notation length := List.length.
@@ -388,6 +388,28 @@ Theorem C11_file_roundtrip_example :
     ([(Some (L "test mol"), [(L "k", L "v")]); (Some (L "test mol"), [(L "a>b", L "two" ++ [nl] ++ L "lines"); (L "n", L "1")])], Exhausted).
 Proof. exact (conj ex_file_recs_wf sdf_file_example). Qed.
 Print Assumptions C11_file_roundtrip_example.
+
+(* ---- writer sessions (IO.__init__, _RDFWrite.__init__): an RD file created by path and then reopened by path with append=True any
+        number of times is the header ONCE, followed by all records in order - so the file theorems above, which speak about
+        header ++ records, apply to files with such a history; and the decision table of the header ---- *)
+Theorem C11_rdf_append_history : forall stamp first rest,
+  ss_buffer first = false -> ss_records first <> [] ->
+  Forall (fun s => ss_buffer s = false /\ ss_append s = true) rest ->
+  rdf_sessions stamp (first :: rest) = rdf_header_text stamp ++ concat (concat (map ss_records (first :: rest))).
+Proof. exact rdf_append_history. Qed.
+Print Assumptions C11_rdf_append_history.
+Theorem C11_rdf_header_table :
+  map (fun x => rdf_writes_header (fst (fst x)) (snd (fst x)) (snd x))
+      [(false, false, false); (false, false, true); (false, true, false); (false, true, true);
+       (true, false, false); (true, false, true); (true, true, false); (true, true, true)] =
+      [true; true; true; false; true; true; false; false].
+Proof. exact rdf_header_table. Qed.
+Print Assumptions C11_rdf_header_table.
+Theorem C11_rdf_append_history_example :
+  rdf_sessions (L "01/01/01 00:00") [mk_session false false [L "A"; L "B"]; mk_session false true [L "C"]; mk_session false true []; mk_session false true [L "D"]] =
+  L "$RDFILE 1" ++ [nl] ++ L "$DATM    01/01/01 00:00" ++ [nl] ++ L "ABCD".
+Proof. exact rdf_append_history_example. Qed.
+Print Assumptions C11_rdf_append_history_example.
 
 (* ---- metadata: values come back line by line, stripped, blank lines dropped; equal keys merge ---- *)
 Theorem C11_rdf_meta_roundtrip_normalised : forall entries, Forall rdf_entry_ok entries ->
